@@ -236,7 +236,7 @@ def onExec (t : T) (o : COp) : T :=
   | .read f => if t.counters.any (·.1 == f) then { t with counters := aset t.counters f 0 } else t
   | .advance n => { t with now := t.now + n }
   | .setDeadline k d => t.modSrc k fun a =>
-      if a.kind == .timer && a.kept && t.running != some k then { a with deadline := some d, dirty := true } else a
+      if a.kind == .timer && a.kept && t.running != some k then { a with deadline := d, dirty := true } else a
   | .setInterest k r w m => t.modSrc k fun a =>
       if a.kind == .gen && a.kept && t.running != some k then { a with ir := r, iw := w, mode := m, dirty := true } else a
   | .dropDisp k => t.modSrc k fun a => { a with kept := false }
